@@ -130,6 +130,7 @@ namespace
                 for (size_t k = 0; k < n; ++k) if (om[i][k]) own[i].get().set(k, true);
             }
             for (int r2 = 0; r2 < 2; ++r2) dirty_region(r2);
+            vreg[0] = vreg[1] = -1;      // (seat() looks at the other handle's region)
             for (int h = 0; h < 2; ++h) { vreg[h] = h; seat(h, h, static_cast<size_t>(env.below(3 * W + 2))); }
         }
         ~World()
